@@ -1017,6 +1017,44 @@ fn sem_add_permits_race() {
     });
 }
 
+/// C09, safety under threads: a Barrier of 2 with three arrivals — one party waits, two more arrive on two threads. Three
+/// arrivals are one complete generation and one party of the next: exactly two waits return (one of them the leader), the
+/// third stays pending; a wait is never released by the leader of another generation.
+fn barrier_three_arrivals() {
+    let mut b = loom::model::Builder::new();
+    b.preemption_bound = bound();
+    b.check(|| {
+        EXECUTIONS.fetch_add(1, std::sync::atomic::Ordering::Relaxed);
+        let bar = std::sync::Arc::new(Barrier::new(2));
+        let (b1, b2, b3) = (bar.clone(), bar.clone(), bar.clone());
+        let mut t1 = Task::new(async move { b1.wait().await.is_leader() });
+        let mut t2 = Task::new(async move { b2.wait().await.is_leader() });
+        let mut t3 = Task::new(async move { b3.wait().await.is_leader() });
+        t1.poll();
+        assert!(t1.pending());
+        let t = loom::thread::spawn(move || {
+            t3.poll();
+            t3
+        });
+        t2.poll();
+        let mut t3 = t.join().unwrap();
+        for _ in 0..4 {
+            t1.settle();
+            t2.settle();
+            t3.settle();
+        }
+        let done = [t1.out, t2.out, t3.out];
+        let returned = done.iter().filter(|o| o.is_some()).count();
+        let leaders = done.iter().filter(|o| **o == Some(true)).count();
+        if returned != 2 || leaders != 1 || t1.out.is_none() {
+            panic!("LOOM-VIOLATION barrier_three_arrivals: Barrier(2), three arrivals, every woken task polled again: results {:?} (expected: the first party and exactly one of the other two return, exactly one leader, the third party waits for its own generation)", done);
+        }
+        drop(t1);
+        drop(t2);
+        drop(t3);
+    });
+}
+
 fn main() {
     let which = std::env::args().nth(1).unwrap_or_else(|| "all".to_string());
     let tests: Vec<(&str, fn())> = vec![
@@ -1035,6 +1073,7 @@ fn main() {
         ("rw_writer_announced", rw_writer_announced),
         ("mutex_starved_try", mutex_starved_try),
         ("blocking_forms", blocking_forms),
+        ("barrier_three_arrivals", barrier_three_arrivals),
         ("sem_add_permits_race", sem_add_permits_race),
         ("rw_cancel_vs_next_writer", rw_cancel_vs_next_writer),
         ("once_wait_vs_cancel", once_wait_vs_cancel),
